@@ -80,6 +80,12 @@ func genWrapPairs(c *GenCtx) {
 		for _, e := range exprs {
 			c.add("wrap-pairs", e, doc)
 		}
+		// the same pair carried by Go kinds: a as int64 / uint64, b as float64 when binary64 holds it exactly
+		if kd := kindDoc(pr[0], pr[1]); kd != "" {
+			for _, e := range exprs[:12] {
+				c.add("wrap-pairs-kinds", e, kd)
+			}
+		}
 		c.add("wrap-pairs", bt(pr[0])+" == "+bt(pr[1]), "null")
 		c.add("wrap-pairs", bt(pr[0])+" < "+bt(pr[1]), "null")
 		c.add("wrap-pairs", "contains(`["+pr[0]+"]`, "+bt(pr[1])+")", "null")
@@ -135,4 +141,39 @@ func genBoundaryLengths(c *GenCtx) {
 			c.add("boundary-len", e, doc)
 		}
 	}
+}
+
+// kindDoc: {"a": <x as int64 or uint64>, "b": <y as float64>, "l": [...]} when x fits the integer kind and y is an integer
+// that binary64 represents exactly; "" otherwise
+func kindDoc(x, y string) string {
+	xi, ok1 := new(big.Int).SetString(x, 10)
+	yi, ok2 := new(big.Int).SetString(y, 10)
+	if !ok1 || !ok2 {
+		return ""
+	}
+	var xk string
+	switch {
+	case xi.IsInt64():
+		xk = `{"#":"i64","v":"` + x + `"}`
+	case xi.IsUint64():
+		xk = `{"#":"u64","v":"` + x + `"}`
+	default:
+		return ""
+	}
+	// binary64 holds y exactly iff its odd part has at most 53 bits; spelled <mantissa>p<exponent>
+	ay := new(big.Int).Abs(yi)
+	e := 0
+	for ay.Sign() != 0 && ay.Bit(0) == 0 {
+		ay.Rsh(ay, 1)
+		e++
+	}
+	if ay.BitLen() > 53 || e > 900 {
+		return ""
+	}
+	sign := ""
+	if yi.Sign() < 0 {
+		sign = "-"
+	}
+	yk := `{"#":"f64","v":"` + sign + ay.String() + "p" + fmt.Sprint(e) + `"}`
+	return `{"a":` + xk + `,"b":` + yk + `,"l":[0,` + xk + `,"x"]}`
 }
